@@ -3,6 +3,7 @@ import CoercionModel.Model.Types
 import CoercionModel.Model.Walk
 import CoercionModel.Model.Attempts
 import CoercionModel.Model.Builder
+import CoercionModel.Model.Validate
 open Lean
 namespace Coercion
 
@@ -64,5 +65,12 @@ instance : ToJson Builder.Ret where
     | .err c => Json.str ("err:" ++ (toJson c).compress.replace "\"" "")
     | .panic => "panic"
     | .planOut p => Json.mkObj [("plan", toJson p)]
+
+deriving instance FromJson, ToJson for Validate.Err
+deriving instance FromJson for Validate.VAction
+deriving instance FromJson for Validate.VChecks
+deriving instance FromJson for Validate.VSeq
+deriving instance FromJson for Validate.VBlock
+deriving instance FromJson for Validate.VPlan
 
 end Coercion
